@@ -195,9 +195,47 @@ def long_history_checks(p, A):
        % (p["long_history"], "" if first_bad is None else " (first failure at step %d)" % first_bad), worst, 1e-9))
 
 
+def copy_and_thread_checks(p, A):
+    """(1) a deep-copied / pickled-and-restored screen still makes its rows as A Z + B b of ITS OWN stencil and a FRESH innovation;
+    (2) screens of the same size extruded at the same time from a thread pool give the rows they give one after the other"""
+    import copy as _copy, pickle as _pickle
+    s0 = ic.make_screen(p["kind"], p["nx"], p["ps"], p["r0"], p["L0"], p["extra"], ic.ScriptedGenerator(p["data_seed"] + 5))
+    s0.add_row()
+    for cname, mk in (("deepcopy", lambda: _copy.deepcopy(s0)), ("pickle", lambda: _pickle.loads(_pickle.dumps(s0)))):
+        try:
+            c_ = mk()
+        except Exception as ex:
+            A(("a %s of a screen can be made (%s)" % (cname, type(ex).__name__), 1.0, 0.0)); continue
+        g_ = ic.ScriptedGenerator(p["data_seed"] + 9); g_.row_len = c_.nx_size
+        c_._R = g_
+        worst = 0.0
+        for t in range(3):
+            before = numpy.array(c_._scrn, copy=True)
+            c_.add_row()
+            if not g_.served:
+                worst = 1.0; break
+            Z = before[(c_.stencil_coords[:, 0], c_.stencil_coords[:, 1])]
+            ref = before[1, 1] if p["kind"] == "fried" else 0.0
+            want = c_.A_mat.dot(Z - ref) + c_.B_mat.dot(g_.served[-1]) + ref
+            worst = max(worst, float(numpy.abs(c_._scrn[0] - want).max() / max(float(numpy.abs(want).max()), 1e-300)))
+        A(("rows of a %s of a screen are A Z + B b of its own stencil and a fresh innovation" % cname, worst, 1e-9))
+    import common
+    screens = [ic.make_screen(p["kind"], p["nx"], p["ps"], p["r0"] * (1 + 0.1 * k), p["L0"], p["extra"], 100 + k) for k in range(6)]
+    def rows_of(k):
+        def f():
+            sk = _copy.deepcopy(screens[k])
+            return numpy.array([numpy.array(sk.add_row(), copy=True) for _ in range(6)])
+        return f
+    A(("same-size screens extruded at the same time from a thread pool give the rows they give one after the other",
+       float(common.threads_equal([rows_of(k) for k in range(6)], workers=6, repeats=3)), 0.0))
+
+
 def property_checks(p):
     out = []
     A = out.append
+    if p.get("copies_and_threads"):
+        copy_and_thread_checks(p, A)
+        return out
     if p.get("long_history"):
         long_history_checks(p, A)
         return out
@@ -240,6 +278,9 @@ def falsify(ctx, deep=False):
         cases.append({"kind": "fried", "nx": rng.choice([40, 65]), "extra": 1, "ps": 0.1, "r0": 0.2, "L0": 25.0, "family": False, "long_history": rng.randint(70, 100)})
     # sampling so fine against the outer scale that the stencil covariance is numerically singular (the library refuses these)
     cases.append({"kind": rng.choice(["vk", "fried"]), "nx": rng.choice([8, 16]), "extra": 2, "ps": rng.choice([0.01, 1e-4]), "r0": 0.2, "L0": rng.choice([1e3, 1e4]), "family": False})
+    # copies of screens (deepcopy, pickle) and screens used from a thread pool
+    cases.append({"kind": "vk", "nx": 8, "extra": 2, "ps": 0.1, "r0": 0.2, "L0": 25.0, "family": False, "copies_and_threads": True})
+    cases.append({"kind": "fried", "nx": rng.choice([6, 9]), "extra": 1, "ps": 0.1, "r0": 0.2, "L0": 25.0, "family": False, "copies_and_threads": True})
     # the screen is wider than the outer scale (separations beyond L0 inside the stencil)
     cases.append({"kind": rng.choice(["vk", "fried"]), "nx": rng.choice([9, 17]), "extra": 2, "ps": rng.uniform(0.5, 1.5), "r0": 0.3, "L0": rng.uniform(2.0, 6.0), "family": False})
     for p in cases:
